@@ -11,6 +11,7 @@ same tree, for ALL token strings); both real parsers are run on every explored s
 import hashlib
 import json
 import os
+import subprocess
 from checklib import sh, parse_kv_line
 
 
@@ -57,7 +58,12 @@ def run(ctx):
         elif line.startswith("case "):
             f = line.split()
             case_spec[f[1]] = (gid, f[7] if len(f) > 7 else "")
-    rc, out = sh("%s < %s" % (driver, ops), timeout=3000)
+    try:
+        # `exec` so that the timeout kills the driver itself, not only the shell
+        rc, out = sh("exec %s < %s" % (driver, ops), timeout=900 if ctx.tier == "quick" else 3000)
+    except subprocess.TimeoutExpired:
+        ctx.oblige("run:model-driver-finished-in-time", False, "the Lean driver did not finish (checker blow-up on some case)")
+        return ctx.finish()
 
     def spec_of(cid):
         g, s = case_spec.get(cid, (None, ""))
